@@ -62,7 +62,7 @@ impl Drop for RunDir {
     }
 }
 
-fn set_limits() -> std::io::Result<()> {
+pub fn set_limits() -> std::io::Result<()> {
     unsafe {
         let as_lim = libc::rlimit { rlim_cur: 6 << 30, rlim_max: 6 << 30 };
         libc::setrlimit(libc::RLIMIT_AS, &as_lim);
